@@ -142,18 +142,21 @@ def spellings(obj, imports):
 
 def iter_cases(ctx, rng, n):
   main_no = 0
-  ft_no = rng.randrange(10)
+  ft_no = rng.randrange(72)
+  # rare alternatives are taken in turn (from a random start) rather than drawn: every run must reach each of them
+  ac_no, err_no, gr_no = rng.randrange(6), rng.randrange(9), rng.randrange(7)
   for i in range(n):
     if i % 40 == 9:
       yield {'kind': 'class-shape', 'which': rng.choice(['inherited-method', 'static-method', 'class-method']), 'order': rng.random() < 0.5}
       continue
     if i % 9 == 5:
       ft_no += 1
-      yield gen_ftree(rng, negative=ft_no % 2 == 0, fresh=ft_no % 10 == 1)
+      yield gen_ftree(rng, negative=ft_no % 2 == 0, fresh=ft_no % 20 == 1, turn=ft_no // 2)
       continue
     if i % 7 == 3:
       if rng.random() < 0.35:
-        yield {'kind': 'alias-collision', 'how': rng.choice(['second-parse', 'include', 'includer', 'sibling-plain-after-alias', 'sibling-plain-before-alias', 'same-file-rebind']),
+        ac_no += 1
+        yield {'kind': 'alias-collision', 'how': ['second-parse', 'include', 'includer', 'sibling-plain-after-alias', 'sibling-plain-before-alias', 'same-file-rebind'][ac_no % 6],
                'alias': rng.choice(['X', 'alpha', 'mod']), 'plain': rng.choice(['from PK import alpha', 'import PK.alpha']),
                'form': rng.choice(['import PK.%s as %s', 'from PK import %s as %s'])}
         continue
@@ -162,8 +165,11 @@ def iter_cases(ctx, rng, n):
              'second_method': rng.random() < 0.5, 'entry': rng.choice(['text', 'file']), 'wrap': rng.choice(['plain', 'plain', 'list', 'uneval'])}
       continue
     if i % 5 == 4:
-      yield {'kind': 'errors', 'which': rng.choice(['name-from-includer', 'name-from-includee', 'attribute', 'gin-reserved', 'gin-reserved', 'late-enabling', 'aliased-enabling',
-                                                      'unknown-feature', 'unknown-feature-path']), 'seed': rng.randrange(1 << 30)}
+      err_no += 1
+      which = ['name-from-includer', 'gin-reserved', 'name-from-includee', 'attribute', 'late-enabling', 'gin-reserved', 'aliased-enabling', 'unknown-feature',
+               'unknown-feature-path'][err_no % 9]
+      gr_no += which == 'gin-reserved'
+      yield {'kind': 'errors', 'which': which, 'seed': rng.randrange(1 << 30), 'form': gr_no}
       continue
     imports = rng.sample(sorted(IMPORTS), rng.choice([2, 3, 4, 5]))
     # two statements binding the same name in one file: the later wins (as in Python); keep the generator simple: distinct bound names except PK
@@ -546,9 +552,9 @@ def run_errors(ctx, case):
     exp = AttributeError
   elif which == 'gin-reserved':
     # the name is reserved however an import comes to bind it: through an alias, or because the module itself is called gin
-    how, tmpl = random.Random(case['seed']).choice([('alias', 'from %s import alpha as gin\n'), ('alias', 'import %s.beta as gin\n'), ('plain-import', 'import gin\n'),
-                                                    ('dotted-import', 'import gin.config\n'), ('from-import', 'from %s import gin\n'),
-                                                    ('plain-import', 'import %s.alpha\nimport gin\n'), ('from-import', 'from %s import gin\nimport %s.alpha\n')])
+    forms = [('alias', 'from %s import alpha as gin\n'), ('alias', 'import %s.beta as gin\n'), ('plain-import', 'import gin\n'), ('dotted-import', 'import gin.config\n'),
+             ('from-import', 'from %s import gin\n'), ('plain-import', 'import %s.alpha\nimport gin\n'), ('from-import', 'from %s import gin\nimport %s.alpha\n')]
+    how, tmpl = forms[case['form'] % len(forms)] if 'form' in case else random.Random(case['seed']).choice(forms)
     if how == 'from-import':
       extend_package(pk)       # adds a module PK.gin
     ctx.bucket('error:gin-reserved:' + how)
@@ -831,7 +837,7 @@ POISON = 777777
 # ValueError ('registered with a custom module ... but the class is also being registered'): the method is registered under the alias-derived
 # module, its class then falls back to the real module path. While this is False the generator lets the class be addressed first through every
 # import whose alias-derived selector prefix collides with another import's; set it to True once gin is repaired (the oracle needs no change).
-ENABLE_METHOD_BEFORE_CLASS_UNDER_COLLIDING_NAME = False
+ENABLE_METHOD_BEFORE_CLASS_UNDER_COLLIDING_NAME = True
 
 
 def ft_spelling(imp):
@@ -904,26 +910,29 @@ def ft_hazard(files, roots, events=None):
   return None
 
 
-def gen_ftree(rng, negative, fresh=False):
+def gen_ftree(rng, negative, fresh=False, turn=None):
   relation = None
+  if turn is None:
+    turn = rng.randrange(36)
   if negative:
-    relation = rng.choice(sorted(FT_RELATIONS))
+    relation = sorted(FT_RELATIONS)[turn % 6]
     shape, f_id, d_id = rng.choice(FT_RELATIONS[relation])
   else:
     shape = rng.choice(sorted(FT_SHAPES))
   includes, roots = FT_SHAPES[shape]
-  focus = rng.random() < 0.3
+  focus = rng.random() < 0.4
+  focus_mods = rng.sample(['alpha', 'eps', 'sub.eps'], 3)
   files = {}
   val = 10
   for fid in sorted(includes):
     imports, bound = [], set()
-    focus_members = rng.choice([[1, 3], [2, 4], [2, 4]])       # (focus) this file mostly addresses K and K.Inner / K.meth and K.Inner.deep
+    focus_members = rng.choice([[1, 3], [2, 4], [2, 4], [2, 4]])       # (focus) this file mostly addresses K and K.Inner / K.meth and K.Inner.deep
     for _ in range(rng.choice([1, 1, 2])):
       mod = rng.choice(['alpha', 'alpha', 'beta', 'eps', 'eps', 'sub.eps', 'sub.eps', 'reexp'])
       form = rng.choice(['as', 'from-as', 'from-as', 'from', 'plain'] + (['pkg'] if mod == 'sub.eps' else []))
       imp = [mod, form, rng.choice(['X', 'X', 'X', 'eps', 'alpha', 'mod'])]
       if focus:     # every file calls its module X, and the modules have equally named classes with equally named methods
-        imp = [rng.choice(['alpha', 'alpha', 'eps', 'eps', 'sub.eps']), rng.choice(['as', 'from-as']), 'X']
+        imp = [focus_mods[fid % 3] if rng.random() < 0.6 else rng.choice(['alpha', 'eps']), rng.choice(['as', 'from-as']), 'X']
       names = ft_spelling(imp)[1]
       if any(nm in bound and nm != 'PK' for nm in names):
         continue        # two statements of one file binding one name: covered by alias-collision:same-file-rebind
@@ -935,6 +944,8 @@ def gen_ftree(rng, negative, fresh=False):
       mi = rng.randrange(len(FT_MEMBERS[imports[ii][0]]))
       if focus and rng.random() < 0.7:
         mi = rng.choice(focus_members)
+      if imports[ii][0] == 'reexp' and rng.random() < 0.3:
+        mi = len(FT_MEMBERS['reexp']) - 1      # Reg.rm
       val += 1
       items.append(['bind', ii, mi, val, rng.choice(['line', 'line', 'line', 'block']), rng.choice(['', '', '', 'sc'])])
     for child in includes[fid]:
@@ -953,7 +964,7 @@ def gen_ftree(rng, negative, fresh=False):
     if any(nm in f_bound for nm in ft_spelling(d['imports'][di])[1]) or d['imports'][di][1] in ('plain', 'pkg'):
       # make the name foreign to F (F's own statements are rendered from its own import table and do not change)
       d['imports'][di] = [d['imports'][di][0], rng.choice(['as', 'from-as']), 'Q7']
-    position = rng.choice(['binding', 'block', 'reference', 'reference-in-container', 'macro-value', 'scoped-binding'])
+    position = ['binding', 'block', 'reference', 'reference-in-container', 'macro-value', 'scoped-binding'][(turn + turn // 6) % 6]
     if position.startswith('reference'):
       f['imports'].append(['sub.gamma', 'from', None])
     mi = rng.randrange(len(FT_MEMBERS[d['imports'][di][0]]))
